@@ -452,3 +452,144 @@ def _anc(pm, node):
     while id(n) in pm:
         n = pm[id(n)]
         yield n
+
+
+@rule('R57', 'Graph methods that build a new Graph from self hand over the stored top (_top), not the resolved one')
+def r57(ctx: Ctx) -> RuleReport:
+    rep = RuleReport('R57', r57.title, floor=2)
+    gc = ctx.repo.cls('penman.graph', 'Graph')
+    for name in ('__or__', '__sub__'):
+        fi = gc.methods.get(name)
+        if fi is None:
+            raise AnalysisError(f'Graph.{name} vanished')
+        ctors = [c for c, ts in ctx.cg.calls_in(fi) if any(t.kind == 'class' and t.cls.fq == gc.fq for t in ts)]
+        copies = [c for c, ts in ctx.cg.calls_in(fi) if any(t.kind == 'ext' and t.name == 'copy.deepcopy' for t in ts)]
+        key = f'penman.graph:Graph.{name}: the result starts as a copy of self that keeps an implicit top implicit'
+        if copies and not ctors:
+            rep.ok(key, fi.loc(), 'copy.deepcopy(self) copies _top as it is')
+            continue
+        bad = []
+        for c in ctors:
+            top = next((k.value for k in c.keywords if k.arg == 'top'), c.args[1] if len(c.args) > 1 else None)
+            if top is not None and norm(top) == 'self.top':
+                bad.append(norm(c)[:60])
+        rep.add(key, fi.loc(), 'violation' if bad else 'ok',
+                f'{bad}: `self.top` resolves an implicit top to the source of the first triple and stores it as an explicit one; a '
+                f'later difference then keeps it although an implicit top would follow the first remaining triple' if bad else '')
+    # the in-place operators leave _top alone unless it disappears (R54)
+    for name in ('__ior__',):
+        fi = gc.methods[name]
+        st = [n for n in walk_local(fi.node) if isinstance(n, (ast.Assign, ast.AugAssign)) and '_top' in norm(n.targets[0] if isinstance(n, ast.Assign) else n.target)]
+        rep.add(f'penman.graph:Graph.{name}: union does not touch the top', fi.loc(), 'violation' if st else 'ok')
+    return rep
+
+
+@rule('R58', 'interpretation tells edges from attributes by the variables of ALL nodes of the tree, the top included')
+def r58(ctx: Ctx) -> RuleReport:
+    rep = RuleReport('R58', r58.title, floor=2)
+    fi = ctx.repo.func('penman.layout', 'interpret')
+    tp = fi.positional[0]
+    # the set passed to _interpret_node
+    call = next((c for c, ts in ctx.cg.calls_in(fi) if any(t.kind == 'func' and t.func.qualname == '_interpret_node' for t in ts)), None)
+    if call is None or len(call.args) < 2:
+        raise AnalysisError('interpret does not call _interpret_node(node, variables, model)')
+    v = single_def(ctx, fi, call.args[1])
+    src = norm(v)
+    key = 'penman.layout:interpret: the variable set is {variable of every node in t.nodes()}'
+    good = False
+    if isinstance(v, (ast.SetComp, ast.GeneratorExp, ast.ListComp)) or (isinstance(v, ast.Call) and norm(v.func) == 'set' and v.args):
+        comp = v if not isinstance(v, ast.Call) else v.args[0]
+        if isinstance(comp, (ast.SetComp, ast.GeneratorExp, ast.ListComp)) and len(comp.generators) == 1:
+            g = comp.generators[0]
+            if norm(g.iter) == f'{tp}.nodes()' and not g.ifs:
+                if isinstance(g.target, ast.Tuple) and isinstance(comp.elt, ast.Name) and norm(g.target.elts[0]) == comp.elt.id:
+                    good = True
+                if isinstance(g.target, ast.Name) and norm(comp.elt) == f'{g.target.id}[0]':
+                    good = True
+    if good:
+        rep.ok(key, fi.loc(v), src[:70])
+    elif '.walk()' in src:
+        rep.violation(key, fi.loc(v), f'`{src[:80]}` collects variables from the branches of the tree: the top node is nobody\'s branch, so a '
+                      f're-entrant reference to the top is taken for a constant and an inverted role on it is not deinverted')
+    else:
+        raise AnalysisError(f'R58: the variable set has an unrecognised shape: {src[:80]}')
+    # _interpret_node passes the same set down unchanged
+    inner = ctx.repo.func('penman.layout', '_interpret_node')
+    vp = inner.positional[1]
+    recs = [c for c, ts in ctx.cg.calls_in(inner) if any(t.kind == 'func' and t.func.fq == inner.fq for t in ts)]
+    good = bool(recs) and all(len(c.args) >= 2 and norm(c.args[1]) == vp for c in recs) and not ctx.cg.local_assigns(inner).get(vp)
+    rep.add('penman.layout:_interpret_node: the same variable set is used at every depth', inner.loc(), 'ok' if good else 'violation')
+    # Tree.nodes / _nodes cover the top and every nested node
+    nf = ctx.repo.func('penman.tree', '_nodes')
+    srcn = norm(nf.node)
+    rep.add('penman.tree:_nodes: the node itself and, recursively, every non-atomic branch target', nf.loc(),
+            'ok' if '[node]' in srcn and '_nodes(target)' in srcn and 'not is_atomic(target)' in srcn else 'violation')
+    return rep
+
+
+@rule('R59', 'the fused form role(a,b) is split at the first comma only: the whole remainder is the target')
+def r59(ctx: Ctx) -> RuleReport:
+    rep = RuleReport('R59', r59.title, floor=1)
+    fi = ctx.repo.func('penman._parse', '_parse_triple')
+    found = False
+    for n in walk_local(fi.node):
+        if isinstance(n, ast.Call) and isinstance(n.func, ast.Attribute) and n.func.attr in ('partition', 'split', 'rpartition', 'rsplit') \
+                and n.args and try_fold(n.args[0]) == (True, ',') and norm(n.func.value).endswith('.text') and 'symbol' in norm(n.func.value):
+            found = True
+            key = f'penman._parse:_parse_triple: {norm(n)}'
+            if n.func.attr == 'partition':
+                rep.ok(key, fi.loc(n), 'partition splits at the first comma and keeps the rest intact')
+            elif n.func.attr == 'split' and len(n.args) == 2 and try_fold(n.args[1]) == (True, 1):
+                rep.ok(key, fi.loc(n), 'split(",", 1)')
+            else:
+                rep.violation(key, fi.loc(n), f'{n.func.attr}(",") cuts at every comma (or at the last): a target that itself contains a comma, '
+                              f'such as 1,000, loses everything after its first comma')
+    if not found:
+        raise AnalysisError('_parse_triple: no split of the first symbol at a comma')
+    return rep
+
+
+@rule('R60', 'no function that returns mutable objects is memoised (results of separate calls would share state)')
+def r60(ctx: Ctx) -> RuleReport:
+    rep = RuleReport('R60', r60.title, floor=0)
+    # built-in positive example for the matcher
+    probe = ast.parse('@lru_cache(maxsize=128)\ndef f(x):\n    return [x]\n@functools.cache\ndef g(x):\n    return x\n').body
+    if sum(1 for fn in probe if _memo_decorators(fn)) != 2:
+        raise AnalysisError('R60 self-test: memoisation decorators are not recognised')
+    n = 0
+    for fi in ctx.repo.all_functions():
+        decs = _memo_decorators(fi.node)
+        if not decs:
+            continue
+        n += 1
+        t = ctx.types.returns.get(fi.fq, frozenset()) | ctx.types.declared_return(fi)
+        mutable = [a for a in _flatten(t) if a[0] in ('list', 'dict', 'set', 'inst')]
+        key = f'{fi.module.name}:{fi.qualname}: @{decs[0]}'
+        rep.add(key, fi.loc(), 'violation' if mutable else 'ok',
+                f'the cached result contains mutable objects ({sorted({a[0] + (":" + a[1].split(":")[-1] if a[0] == "inst" else "") for a in mutable})}): '
+                f'every later call with an equal argument returns the same objects, so editing one result changes the others and the '
+                f'outcome of later calls' if mutable else 'returns immutable data only')
+    rep.analysed['memoised_functions'] = n
+    return rep
+
+
+def _memo_decorators(fn) -> List[str]:
+    out = []
+    for d in getattr(fn, 'decorator_list', []):
+        src = norm(d)
+        base = src.split('(')[0].split('.')[-1]
+        if base in ('lru_cache', 'cache', 'cached_property', 'memoize', 'memoized'):
+            out.append(src)
+    return out
+
+
+def _flatten(t):
+    for a in t:
+        yield a
+        for x in a[1:]:
+            if isinstance(x, frozenset):
+                yield from _flatten(x)
+            elif isinstance(x, tuple):
+                for y in x:
+                    if isinstance(y, frozenset):
+                        yield from _flatten(y)
